@@ -114,13 +114,13 @@ CLAIMED['C04'] = dict(
 
 CLAIMED['C10'] = dict(
     technique='symbolic execution of rustc MIR (M2S) of plug::plug with the graph API replaced by its contract (assume-guarantee on C06/C07/C15); z3 decides agreement with the documented matching; models realised as components and replayed through wac_graph::plug',
-    text='Bounded: for sockets with <= 2 imports / <= 1 export (thorough: 3 / 2) and 1..2 plugs (thorough: 3) with <= 2 exports each, over abstract names carrying a semver '
+    text='Bounded: for sockets with <= 2 imports / <= 1 export (thorough: 3 / 2) and 1..2 plugs (thorough: up to 4 plugs with one export each, 3 with one, 2 with two) with <= 2 exports each, over abstract names carrying a semver '
          'track and abstract types with an uninterpreted `<:`: on every path of the real plug() MIR, Ok is returned exactly when something is offered, no socket import is '
          'offered twice and no graph call fails; then every offered socket import (exact name, else first semver-compatible import, filtered by `<:`) is supplied by an alias of '
          'exactly the offering export of an instance of exactly that plug, nothing else is supplied, a plug is instantiated once iff it offers something, every socket export is '
          're-exported under its own name from the socket instance; NoPlugHappened iff nothing is offered; two offers for one import give an error. '
          'Validity of the encoded result is observed on the replayed witnesses only.',
-    note='Trusted: contracts of instantiate / alias_instance_export / set_instantiation_argument / export (C06 effect postconditions), `<:` uninterpreted (C07), are_semver_compatible = track relation (C15), M2S, z3. 4 plugs and larger sockets are outside the bound.',
+    note='Trusted: contracts of instantiate / alias_instance_export / set_instantiation_argument / export (C06 effect postconditions), `<:` uninterpreted (C07), are_semver_compatible = track relation (C15), M2S, z3. Larger sockets and 4 plugs with several exports each are outside the bound.',
     design='DESIGN.md section 3 / C10')
 
 CLAIMED['C16'] = dict(
